@@ -612,6 +612,16 @@ def job_stream(pid, ctx, n_random=None):
                     # C10 "awaiting the last ticket implies every earlier control has run": a ticket is the flag of the LAST control its API call sent
                     # (c10_ran: raised ⇒ taken, and everything sent before it in that queue taken before it). Resolving earlier — at an earlier instant,
                     # or before effects that every admissible run puts in front of it — means it resolved before that control had run
+                    # C10 "urgent before high before normal, which is what lets … wait-for-end overtake queued work": the ticket of a wait-for-end
+                    # that resolves LATER (instant, or place among the effects of its instant) than in every admissible run did not overtake
+                    ops_ = c.split(" ")[2].split(";"); sends_ = []
+                    for o_ in ops_:
+                        if o_[:2] in ("s:", "n:"): sends_.append(o_)
+                        elif o_[:2] == "c:": sends_.append(sends_[int(o_[2:])] if int(o_[2:]) < len(sends_) else "s:?")
+                    if not any(o_[:2] in ("m:", "M:") for o_ in ops_) and u.isdigit() and int(u) < len(sends_) and sends_[int(u)].split(":")[1] == "towait":
+                        latest_ = max(a[u] for a in ats)
+                        if it.get(u) is not None and it[u] > latest_:
+                            s.oracle_failures.append((i, c, ta, f"[C10] the wait-for-end behind ticket {u} (high priority) resolves at {it[u][0]} ms after {it[u][1]} process-visible effects; in every admissible run it has overtaken the queued normal controls and resolves at {latest_[0]} ms after {latest_[1]} effects at the latest"))
                     earliest = min(a[u] for a in ats)
                     if it.get(u) is not None and it[u] < earliest:
                         s.oracle_failures.append((i, c, ta, f"[C10] ticket {u} resolves at {it[u][0]} ms after {it[u][1]} process-visible effects; in every admissible run the control it stands for (the last one its API call sent) has run only at {earliest[0]} ms after {earliest[1]} effects: awaiting the ticket does not imply the controls have run"))
@@ -1450,10 +1460,10 @@ def c12_streams(ctx):
             if src == "gg" and gc and not (on[1] or on[5]): want = "pass"     # the project's own core.excludesFile replaces the global git excludes
             if src == "gg" and f[1] == "3": want = "pass"                      # no VCS marker at the origin: the global git excludes are not a source of this project at all
             if a.get(src) != want: return f"flags [{' '.join(n for n, o in zip(flags, on) if o)}]{' (project git config)' if gc else ''}: probe owned by source `{src}` is {a.get(src)}, the flags say {want}"
-        for lab, want in (("ex", "ign"), ("ip", "ign"), ("ok", "pass"), ("keep", "pass")):
+        for lab, want in (("ex", "ign"), ("ip", "ign"), ("ok", "pass"), ("keep", "pass"), ("kpyc", "pass")):
             if a.get(lab) != want: return f"flags [{' '.join(n for n, o in zip(flags, on) if o)}]: explicit option probe `{lab}` is {a.get(lab)}, expected {want} whatever the flags"
         fixed = ["fl:pass ok:ign ex:ign", "ff:pass ok:ign", "rs:pass toml:pass brs:ign ok:ign", "create:pass modify:ign",
-                 "rs:pass toml:pass ok:ign", "fl:pass ok:ign", "ip:ign ok:pass", "ex:ign ok:pass keep:pass"]
+                 "rs:pass toml:pass ok:ign", "fl:pass ok:ign", "ip:ign ok:pass kpyc:pass", "ex:ign ok:pass keep:pass"]
         for got, want in zip(rows[1:], fixed):
             if got != want: return f"flags [{' '.join(n for n, o in zip(flags, on) if o)}]: explicit option row is `{got}`, expected `{want}` whatever the flags"
         return None
